@@ -37,6 +37,8 @@ def norm_module(m):
     n["imports"] = []
     for im in m.get("imports", []):
         im = dict(im)
+        im.pop("wire_mod", None)
+        im.pop("wire_name", None)
         if im["kind"] == "func":
             im.setdefault("ret", [])
         if im["kind"] in ("memory", "table"):
@@ -92,6 +94,9 @@ def enc_module(m):
         im = dict(im)
         if im["kind"] in ("memory", "table") and not im.get("hasmax", im.get("max") is not None):
             im["max"] = None
+        if "wire_name" in im:
+            im["mod"] = {"bytes": wasm_encode.name_bytes(im["wire_mod"] if not isinstance(im["wire_mod"], list) else {"bytes": im["wire_mod"]})}
+            im["name"] = {"bytes": wasm_encode.name_bytes(im["wire_name"] if not isinstance(im["wire_name"], list) else {"bytes": im["wire_name"]})}
         imps.append(im)
     e["imports"] = imps
     if e.get("start", -1) is not None and e.get("start", -1) < 0:
@@ -186,6 +191,11 @@ def c_json_str(name):
         "".join("\\%03o" % ord(c) if c in '"\\' or ord(c) < 32 or ord(c) > 126 else c for c in j)
 
 
+def c_octal(n):
+    """C string literal body for a name given as str or list of bytes: every byte as a three-digit octal escape."""
+    return "".join("\\%03o" % x for x in wasm_encode.name_bytes(n if not isinstance(n, list) else {"bytes": n}))
+
+
 def c_bytes_literal(t, b):
     """C expression of type CT[t] with bit pattern b (little-endian bytes)."""
     v = wasm_encode.le_to_int(b)
@@ -235,12 +245,18 @@ def gen_harness(items, prefix):
         o.append("static void* %s_resolve(const char* module, const char* name) { (void)module;" % mod)
         gi = 0
         for im in m.get("imports", []):
+            # the resolver sees the names exactly as they are in the binary: imports with "wire_mod"/"wire_name"
+            # (arbitrary bytes) are matched on both strings, byte for byte
+            if "wire_name" in im:
+                cond = '!strcmp(module, "%s") && !strcmp(name, "%s")' % (c_octal(im["wire_mod"]), c_octal(im["wire_name"]))
+            else:
+                cond = '!strcmp(name, "%s")' % im["name"]
             if im["kind"] == "memory":
-                o.append('  if (!strcmp(name, "%s")) return mems[%s_bmem - 1];' % (im["name"], mod))
+                o.append('  if (%s) return mems[%s_bmem - 1];' % (cond, mod))
             elif im["kind"] == "table":
-                o.append('  if (!strcmp(name, "%s")) return &tables[%s_btab - 1];' % (im["name"], mod))
+                o.append('  if (%s) return &tables[%s_btab - 1];' % (cond, mod))
             elif im["kind"] == "global":
-                o.append('  if (!strcmp(name, "%s")) return &gcells[%s_bglob[%d] - 1];' % (im["name"], mod, gi))
+                o.append('  if (%s) return &gcells[%s_bglob[%d] - 1];' % (cond, mod, gi))
                 gi += 1
         o.append("  return NULL; }")
         o.append("static void run_%s(void) {" % mod)
@@ -321,6 +337,8 @@ def actual(items, w2c2, workdir, cc="gcc", cflags=("-O1",), batch=24, w2c2_opts=
     batches = [items[j:j + batch] for j in range(0, len(items), batch)]
     problems = []
 
+    gnuld = "gnu-ld" in (w2c2_opts or ())
+
     def one(bn):
         its = batches[bn]
         d = os.path.join(workdir, "b%d" % bn)
@@ -332,7 +350,19 @@ def actual(items, w2c2, workdir, cc="gcc", cflags=("-O1",), batch=24, w2c2_opts=
             wasm = os.path.join(d, it["modname"] + ".wasm")
             with open(wasm, "wb") as f:
                 f.write(it.get("wasm") or wasm_encode.encode(enc_module(it["module"])))
-            rc, out, err = run([w2c2, *(w2c2_opts or ("-m",)), wasm, os.path.join(d, it["modname"] + ".c")], timeout=120, cwd=d)
+            if gnuld:
+                # external data segments: the translator writes a file 'datasegments' next to the output, so every
+                # module gets its own directory; the blob is linked in with ld -r -b binary as the project documents
+                sub = os.path.join(d, it["modname"] + ".dir")
+                os.makedirs(sub, exist_ok=True)
+                rc, out, err = run([w2c2, *w2c2_opts, wasm, os.path.join(sub, it["modname"] + ".c")], timeout=120, cwd=sub)
+                if rc == 0 and os.path.exists(os.path.join(sub, "datasegments")):
+                    rc, out, err = run(["ld", "-r", "-b", "binary", "datasegments", "-o", os.path.join(d, it["modname"] + "-ds.o")], timeout=60, cwd=sub)
+                for f_ in os.listdir(sub):
+                    if f_.endswith((".c", ".h")):
+                        shutil.move(os.path.join(sub, f_), os.path.join(d, f_))
+            else:
+                rc, out, err = run([w2c2, *(w2c2_opts or ("-m",)), wasm, os.path.join(d, it["modname"] + ".c")], timeout=120, cwd=d)
             if rc != 0:
                 problems.append(("translate", [it["id"]], "rc=%s %s" % (rc, err[-800:])))
             else:
@@ -354,6 +384,10 @@ def actual(items, w2c2, workdir, cc="gcc", cflags=("-O1",), batch=24, w2c2_opts=
                 break
             ob = src[:-2] + ".o"
             rc, out, err = run([cc, *cflags, "-w", *inc, "-c", src, "-o", ob], timeout=600, cwd=d)
+            dso = src[:-2] + "-ds.o"
+            if rc == 0 and gnuld and os.path.exists(os.path.join(d, dso)):
+                rc, out, err = run(["ld", "-r", ob, dso, "-o", src[:-2] + "-all.o"], timeout=60, cwd=d)
+                ob = src[:-2] + "-all.o"
             if rc == 0 and localize:
                 # keep only the module's public (prefixed) symbols global, so that several translated
                 # modules can live in one test program whatever their internal names are
